@@ -1,1 +1,2 @@
+pub mod hist;
 pub mod value;
